@@ -143,3 +143,9 @@ func MustJSON(v any) []byte {
 	}
 	return b
 }
+
+// Fresh returns a new Env on the same hosts (a second manager lifetime in one run; the previous
+// manager must have been stopped).
+func (e *Env) Fresh() *Env {
+	return &Env{S: e.S, W: e.W, Client: e.Client, Up: e.Up, Target: e.Target}
+}
